@@ -30,15 +30,16 @@ type CLI struct {
 
 	Pending *Ask
 
-	EchoWrap int  // >0: insert " \r" after every EchoWrap echoed bytes of a line
-	NoEcho   bool // device never echoes
-	EOL      string
-	line     []byte
-	echoed   int
-	Log      []Recv
-	NoPrompt bool // after the next output print no prompt (one shot)
-	LastMode string
-	OnReturn func(c *CLI) // called under the mutex after every processed return
+	EchoWrap  int  // >0: insert " \r" after every EchoWrap echoed bytes of a line
+	NoEcho    bool // device never echoes
+	EOL       string
+	line      []byte
+	echoed    int
+	Log       []Recv
+	NoPrompt  bool // after the next output print no prompt (one shot)
+	AlwaysEOL bool // EOL res EOL prompt even for empty res (the shape Channel.tla models)
+	LastMode  string
+	OnReturn  func(c *CLI) // called under the mutex after every processed return
 }
 
 // Start implements Reactor.
@@ -100,7 +101,10 @@ func (c *CLI) OnInput(b []byte) []byte {
 			}
 		}
 
-		if res != "" {
+		if c.AlwaysEOL {
+			out.WriteString(res)
+			out.WriteString(c.EOL)
+		} else if res != "" {
 			out.WriteString(res)
 
 			if !bytes.HasSuffix([]byte(res), []byte("\n")) {
